@@ -475,7 +475,17 @@ def rule_ftrl(ctx):
                 if not fld or not fld.startswith("field:"):
                     continue
                 op = y["op"] if y.get("k") == "AssignOp" else "="
-                reads_self = any(z.get("k") == "Path" and z.get("local") == tgt.get("local") for z in walk(y["r"]))
+                # locals of the closure that were computed from the old value carry it: `let t = *z + g; *z = t - s * w;`
+                carriers = {tgt.get("local")}
+                grew = True
+                while grew:
+                    grew = False
+                    for st in walk(clo["body"]):
+                        if st.get("k") == "LetStmt" and st.get("init") is not None and st["pat"].get("k") == "Bind" and st["pat"]["local"] not in carriers \
+                                and any(z.get("k") == "Path" and z.get("local") in carriers for z in walk(st["init"])):
+                            carriers.add(st["pat"]["local"])
+                            grew = True
+                reads_self = any(z.get("k") == "Path" and z.get("local") in carriers for z in walk(y["r"]))
                 if op == "=" and reads_self:
                     # `*n = *n + g * g`
                     top = peel_refs(y["r"])
